@@ -111,6 +111,7 @@ type HarnessRun struct {
 }
 
 type PathSample struct {
+	Pkg      string            `json:"pkg"`
 	Harness  string            `json:"harness"`
 	Params   []int             `json:"params,omitempty"`
 	Decisive int               `json:"decisions"`
@@ -278,7 +279,7 @@ func (w *Worker) noteInconclusive(msg string) {
 
 func (w *Worker) reportViolation(e *Exec, label, kind, msg string, m map[string]uint64) {
 	r := w.cur
-	v := &Violation{Harness: r.Spec.Func, Params: r.Spec.Params, Label: label, Kind: kind, Msg: msg, Model: m,
+	v := &Violation{Pkg: r.Spec.Pkg, Harness: r.Spec.Func, Params: r.Spec.Params, Label: label, Kind: kind, Msg: msg, Model: m,
 		Inputs: append([]InputRec(nil), e.inputs...), Trace: append([]Decision(nil), e.trace...), Pos: e.curCallPos}
 	r.mu.Lock()
 	// keep at most a few per label
@@ -331,6 +332,16 @@ func (w *Worker) global(e *Exec, g *ssa.Global) *Obj {
 	et := g.Type().Underlying().(*types.Pointer).Elem()
 	o := &Obj{ID: -len(w.globals) - 1, V: e.zero(et), Frozen: true, Note: g.String()}
 	w.globals[g] = o
+	if g.Pkg != nil && !w.initDone[g.Pkg] && w.initializing && !allowInit(g.Pkg.Pkg.Path()) {
+		// a dependency's variable read by a package initialiser of the repo
+		if init := stdGlobalInit[g.String()]; init != nil {
+			o.V = init(e)
+		} else if isErrorType(et) {
+			o.V = e.newError(g.String())
+		} else if !strings.HasSuffix(g.Name(), "$guard") {
+			fmt.Fprintf(os.Stderr, "warning: %s read during package initialisation is not modelled (zero value used)\n", g.String())
+		}
+	}
 	if g.Pkg != nil && !w.initDone[g.Pkg] && !w.initializing {
 		if init := stdGlobalInit[g.String()]; init != nil {
 			save := w.initializing
@@ -474,7 +485,7 @@ func (w *Worker) maybeSample(e *Exec, r *HarnessRun) {
 		}
 		m = mm
 	}
-	ps := &PathSample{Harness: r.Spec.Func, Params: r.Spec.Params, Decisive: len(e.trace), Model: map[string]string{}, raw: m, inputs: e.inputs}
+	ps := &PathSample{Pkg: r.Spec.Pkg, Harness: r.Spec.Func, Params: r.Spec.Params, Decisive: len(e.trace), Model: map[string]string{}, raw: m, inputs: e.inputs}
 	var pcs []string
 	for i, c := range e.pc {
 		if i >= 4 {
@@ -612,10 +623,17 @@ func overlayFor(repo, harnessDir, mode string) (map[string][]byte, map[string]st
 	if err != nil {
 		return nil, nil, err
 	}
-	tmplPath := filepath.Join(harnessDir, "_shared", "rt_"+mode+".go.tmpl")
+	base := mode
+	if mode == "native_sync" {
+		base = "native"
+	}
+	tmplPath := filepath.Join(harnessDir, "_shared", "rt_"+base+".go.tmpl")
 	tmpl, err := os.ReadFile(tmplPath)
 	if err != nil {
 		return nil, nil, err
+	}
+	if base == "native" {
+		tmpl = []byte(selectSections(string(tmpl), mode == "native_sync"))
 	}
 	for dir, name := range pkgName {
 		v := filepath.Join(repo, dir, "zz_verif_rt.go")
@@ -623,4 +641,28 @@ func overlayFor(repo, harnessDir, mode string) (map[string][]byte, map[string]st
 		files[v] = tmplPath
 	}
 	return ov, files, nil
+}
+
+// selectSections keeps //SYNC-BEGIN..//SYNC-END blocks when sync, //NOSYNC- blocks otherwise.
+func selectSections(src string, sync bool) string {
+	var out []string
+	skip := false
+	for _, l := range strings.Split(src, "\n") {
+		t := strings.TrimSpace(l)
+		switch t {
+		case "//SYNC-BEGIN":
+			skip = !sync
+			continue
+		case "//NOSYNC-BEGIN":
+			skip = sync
+			continue
+		case "//SYNC-END", "//NOSYNC-END":
+			skip = false
+			continue
+		}
+		if !skip {
+			out = append(out, l)
+		}
+	}
+	return strings.Join(out, "\n")
 }
